@@ -150,7 +150,7 @@ class CryptDoc:
                 self.packed.append(n)
                 item_refs.append(Ref(n))
         if c["form"] == "xrefstmw0":
-            # /W [1 2 0]: no generation field (every generation is 0), hence no object with another generation
+            # /W [1 n 0]: no generation field (every generation is 0), hence no object with another generation
             for n in [n for n, g in gens.items() if g]:
                 del objs[n]
                 del gens[n]
@@ -197,7 +197,7 @@ class CryptDoc:
         if c["form"] == "table":
             return Revision(dict(sorted(objs.items())), form="table", root=Ref(1), info=Ref(6), trailer_extra=te,
                             gens=self.gens)
-        if c["form"] == "xrefstmw0":
+        if c["form"] in ("xrefstmw0", "xrefstm0w"):
             # written with an ordinary cross-reference stream first; _w0() then replaces that stream by one whose third
             # field has width 0 (the shared writer always emits the free entry 0 with generation 65535)
             self._w0_trailer = dict(te, Root=Ref(1), Info=Ref(6))
@@ -208,14 +208,17 @@ class CryptDoc:
 
     def _w0(self, data, info):
         """replace the cross-reference stream (last object of the file) by one with /W [1 n 0]: no generation field"""
-        if self.cfg["form"] != "xrefstmw0":
+        if self.cfg["form"] not in ("xrefstmw0", "xrefstm0w"):
             return data
+        typed = self.cfg["form"] == "xrefstmw0"        # xrefstm0w: /W [0 n 2] - no type field (every entry is type 1)
         from .pdfwriter import ser
         pos = info["xref_pos"][0]
         body = data[:pos]
-        ent = {0: (0, 0), 31: (1, pos)}
+        ent = {31: (1, pos, 0)}
+        if typed:
+            ent[0] = (0, 0, 0)
         for n, off in info["offsets"][0].items():
-            ent[n] = (1, off)
+            ent[n] = (1, off, self.gens.get(n, 0))
         nb = 2 if pos < 65536 else 3
         keys = sorted(ent)
         runs = []
@@ -224,8 +227,11 @@ class CryptDoc:
                 runs[-1][1] += 1
             else:
                 runs.append([k, 1])
-        rows = b"".join(bytes([ent[k][0]]) + ent[k][1].to_bytes(nb, "big") for k in keys)
-        d = {"Type": Name("XRef"), "Size": keys[-1] + 1, "W": [1, nb, 0], "Index": [x for r in runs for x in r],
+        if typed:
+            rows = b"".join(bytes([ent[k][0]]) + ent[k][1].to_bytes(nb, "big") for k in keys)
+        else:
+            rows = b"".join(ent[k][1].to_bytes(nb, "big") + ent[k][2].to_bytes(2, "big") for k in keys)
+        d = {"Type": Name("XRef"), "Size": keys[-1] + 1, "W": [1, nb, 0] if typed else [0, nb, 2], "Index": [x for r in runs for x in r],
              "Filter": Name("FlateDecode")}
         d.update(self._w0_trailer)
         return body + b"31 0 obj\n" + ser(Stream(d, zlib.compress(rows))) + b"\nendobj\nstartxref\n%d\n%%%%EOF\n" % pos
